@@ -100,6 +100,18 @@ class Runner:
                     seq.add_eom_pulse(name_of(c["nm"]), c["dur"], c["ph"] * u,
                                       post_phase_shift=c["pps"] * u, protocol=c["proto"],
                                       correct_phase_drift=c["cpd"])
+                elif op == "detmap":
+                    reg = seq.register
+                    dmap = reg.define_detuning_map({D.qid(k + 1): w / 2 for k, w in enumerate(c["w2"])})
+                    seq.config_detuning_map(dmap, D.real_id(self.dev, c["cid"])
+                                            if 1 <= c["cid"] <= len(self.dev["chs"]) else "dmm_9")
+                elif op == "slm":
+                    seq.config_slm_mask(ids_of(c["tg"]), D.real_id(self.dev, c["cid"])
+                                        if 1 <= c["cid"] <= len(self.dev["chs"]) else "dmm_9")
+                elif op == "dmm_add":
+                    seq.add_dmm_detuning(cfg.real_pulses[c["p"] - 1].detuning, name_of(c["nm"]), c["proto"])
+                elif op == "magfield":
+                    seq.set_magnetic_field(*((0.0, 0.0, 0.0) if c["zero"] else (0.0, 0.0, 30.0)))
                 else:
                     raise AssertionError(f"unknown op {op}")
             return "ok", ret
